@@ -63,6 +63,29 @@ func mix64(x uint64) uint64 {
 	return x
 }
 
+// timerSite is the point the server's stream loop passes when its request timer has fired. In a bubble a timer fires
+// at exactly its deadline, and the loop asks "is now after the deadline?": with a real clock the answer is always yes,
+// with the virtual clock it is no, the timer is re-armed with a delay of 0 and the loop spins at one virtual instant
+// for ever. One virtual nanosecond at this point restores what every real clock does.
+const timerSite = "srv.loop.reqtimer"
+
+// installTimerSkew installs the minimal hook used by bubbles that are not perturbed.
+func installTimerSkew() func() {
+	sleepers := new(atomic.Int64)
+	curSleepers.Store(sleepers)
+	http2.VerifSetPointHook(func(site string) {
+		if site == timerSite {
+			sleepers.Add(1)
+			time.Sleep(time.Nanosecond)
+			sleepers.Add(-1)
+		}
+	})
+	return func() {
+		http2.VerifSetPointHook(nil)
+		curSleepers.Store(nil)
+	}
+}
+
 // installPerturb installs the hook for one bubble and returns the function that removes it and
 // records the order in which the points were passed.
 func installPerturb(caseID string) func() {
@@ -83,6 +106,9 @@ func installPerturb(caseID string) func() {
 		}
 		local[site]++
 		omu.Unlock()
+		if site == timerSite && h%4 < 2 {
+			h = h&^3 | 2 // always at least a nanosecond here, see timerSite
+		}
 		switch h % 4 {
 		case 0:
 		case 1:
@@ -133,6 +159,8 @@ func RunBubble(t *testing.T, caseID string, watchdog time.Duration, f func()) Ca
 	done := make(chan CaseResult, 1)
 	if PerturbShare > 0 && int(hash64("share/"+caseID)%100) < PerturbShare {
 		defer installPerturb(caseID)()
+	} else {
+		defer installTimerSkew()()
 	}
 	go func() {
 		var res CaseResult
